@@ -73,10 +73,20 @@ def make_ens_obs(pe, rng, ens, nrep, nmin, nmax, kinds):
     names = [ens] if nrep == 1 and rng.random() < 0.4 else ["%s|r%d" % (ens, k + 1) for k in range(nrep)]
     samples, idl, lay = [], [], {}
     dk = rng.choice(kinds)
+    twin = None
     for nm in names:
         n = rng.randint(nmin, nmax)
         k = rng.choice(["contiguous", "contiguous", "strided", "gapped", "gapped"])
         c = gen_common_spacing_cfgs(rng, n, k, gap)
+        if twin is not None and rng.random() < 0.5 and len(twin) > 8:
+            # a second stream with the same first / last configuration and the same number of measurements, holes elsewhere
+            full = list(range(twin[0], twin[-1] + 1, gap))
+            inner = full[1:-1]
+            if len(inner) >= len(twin) - 2:
+                c = [full[0]] + sorted(rng.sample(inner, len(twin) - 2)) + [full[-1]]
+                k = "twin"
+        if twin is None:
+            twin = c
         form = rng.choice(["list", "range", "array"])
         if form == "range" and obsutil.is_uniform(c):
             idl.append(range(c[0], c[-1] + 1, c[1] - c[0]))
